@@ -217,6 +217,7 @@ class PedSim:
         self._llk = {}
         self.caches = []
         self.seen = set()
+        self.last_verified = None
         self.zero_err = bool((self.err[self.parents >= 0] == 0).any()) if (self.parents >= 0).any() else False
 
     def viol(self, cls, msg, **detail):
@@ -405,15 +406,8 @@ class PedSim:
         scan, self.scan = self.scan, None
         self.ctx.log.add("ped_compound", X, scan)
         want = sorted((s, k) for s in range(self.ns) for k in range(int(self.ploidy[s])))
-        if sorted(scan) != want:
-            self.viol("scan_not_exactly_once", "pedigree compound step updated (individual, copy) pairs %r; expected each of %d pairs once" % (scan[:12], len(want)))
-        # every individual's copies are contiguous in the scan (one visit per individual)
-        seen = []
-        for s, _ in scan:
-            if not seen or seen[-1] != s:
-                seen.append(s)
-        if len(seen) != len(set(seen)):
-            self.viol("scan_not_exactly_once", "an individual was visited more than once in a compound step: %r" % seen)
+        # informational only: C18 states that every MOVE is stationary, not that a sweep is complete
+        self.ctx.counters.inc("sweeps_full" if sorted(scan) == want else "sweeps_partial_or_repeated")
         self.traj.append(("ped", X.tobytes()))
         return out
 
@@ -432,6 +426,17 @@ class PedSim:
         want[s, k] = choice
         if not self.np.array_equal(X, want):
             self.viol("state_update", "allele_step chose %r but the state is not X[s,k:=choice]" % choice, before=before, after=X)
+        # draw-level: the vector the move was actually drawn from is the one that was verified for (s, k, state)
+        if "db" in self.checks and vec is not None:
+            lv = self.last_verified
+            same = lv is not None and lv[0] == (s, k) and self.np.array_equal(lv[1], before) and self.np.array_equal(lv[2], vec)
+            if not same:
+                if int(a["step_type"]) == 0:
+                    self.verify_gibbs_vector(s, k, before, self.np.array(vec, dtype=self.np.float64), where="allele_step draw")
+                else:
+                    self.ctx.counters.inc("mh_draw_from_unverified_vector")
+            else:
+                self.ctx.counters.inc("draws_from_verified_vector")
         return out
 
     def _call_probs(self, which, a, X):
@@ -458,39 +463,45 @@ class PedSim:
         if "db" in self.checks:
             s, k = int(a["target_index"]), int(a["allele_index"])
             vec = np.array(out, dtype=np.float64)
-            nh = len(self.haps)
-            mem = self.blanket(s)
-            cond = []
-            for al in range(nh):
-                Y = before.copy()
-                Y[s, k] = al
-                cond.append(self.ljoint(Y, mem))
-            if max(cond) == -math.inf:
-                self.ctx.counters.inc("zero_density_skip")
-                return out
-            want = ref.normalise_logs(cond)
-            dev = max(abs(float(vec[i]) - want[i]) for i in range(nh)) if np.all(np.isfinite(vec)) else float("inf")
-            self.ctx.counters.inc("gibbs_vectors")
-            tp, tq = int(self.tau[s, 0]), int(self.tau[s, 1])
-            p, q = int(self.parents[s, 0]), int(self.parents[s, 1])
-            unb = tp != tq
-            if unb:
-                self.ctx.counters.inc("unbalanced_tau_target")
-            if p >= 0 and p == q:
-                self.ctx.counters.inc("selfing_target")
-            if (p < 0) != (q < 0):
-                self.ctx.counters.inc("one_unknown_parent_target")
-            if len(mem) > 1:
-                self.ctx.counters.inc("target_has_children")
-            if not (dev <= TOL_P):
-                self.viol("ped_gibbs_not_full_conditional",
-                          "pedigree Gibbs vector deviates from the exact full conditional of the joint by %.3g" % dev,
-                          target=s, copy=k, vector=vec, expected=want, tau=[tp, tq], unbalanced_tau=unb,
-                          parents=[p, q], X=before, topology=self.cfg["topology"])
-            self.ctx.key("pgibbs", self.cfg["topology"], tuple(self.cfg["ploidy"]), tuple(map(tuple, self.cfg["tau"])), s,
-                         tuple(sorted(int(v) for v in before[s, : self.ploidy[s]])), int(before[s, k]),
-                         tuple(tuple(sorted(int(v) for v in before[i, : self.ploidy[i]])) for i in mem))
+            if self.verify_gibbs_vector(s, k, before, vec, where="gibbs_probabilities"):
+                self.last_verified = ((s, k), before.copy(), vec.copy())
         return out
+
+    def verify_gibbs_vector(self, s, k, before, vec, where):
+        np = self.np
+        nh = len(self.haps)
+        mem = self.blanket(s)
+        cond = []
+        for al in range(nh):
+            Y = before.copy()
+            Y[s, k] = al
+            cond.append(self.ljoint(Y, mem))
+        if max(cond) == -math.inf:
+            self.ctx.counters.inc("zero_density_skip")
+            return False
+        want = ref.normalise_logs(cond)
+        dev = max(abs(float(vec[i]) - want[i]) for i in range(nh)) if (len(vec) == nh and np.all(np.isfinite(vec))) else float("inf")
+        self.ctx.counters.inc("gibbs_vectors")
+        tp, tq = int(self.tau[s, 0]), int(self.tau[s, 1])
+        p, q = int(self.parents[s, 0]), int(self.parents[s, 1])
+        unb = tp != tq
+        if unb:
+            self.ctx.counters.inc("unbalanced_tau_target")
+        if p >= 0 and p == q:
+            self.ctx.counters.inc("selfing_target")
+        if (p < 0) != (q < 0):
+            self.ctx.counters.inc("one_unknown_parent_target")
+        if len(mem) > 1:
+            self.ctx.counters.inc("target_has_children")
+        if not (dev <= TOL_P):
+            self.viol("ped_gibbs_not_full_conditional",
+                      "pedigree Gibbs vector (%s) deviates from the exact full conditional of the joint by %.3g" % (where, dev),
+                      target=s, copy=k, vector=vec, expected=want, tau=[tp, tq], unbalanced_tau=unb,
+                      parents=[p, q], X=before, topology=self.cfg["topology"])
+        self.ctx.key("pgibbs", self.cfg["topology"], tuple(self.cfg["ploidy"]), tuple(map(tuple, self.cfg["tau"])), s,
+                     tuple(sorted(int(v) for v in before[s, : self.ploidy[s]])), int(before[s, k]),
+                     tuple(tuple(sorted(int(v) for v in before[i, : self.ploidy[i]])) for i in mem))
+        return True
 
     def w_mh(self, *args, **kwargs):
         a = bind(self.real["mh"], args, kwargs)
